@@ -119,6 +119,9 @@ func init() {
 		}
 		return outs
 	})
+	reg(zz+"And", func(c *CallCtx, a []Value) []Outcome { return ret1(And(a[0].(*Term), a[1].(*Term))) })
+	reg(zz+"Or", func(c *CallCtx, a []Value) []Outcome { return ret1(Or(a[0].(*Term), a[1].(*Term))) })
+	reg(zz+"Implies", func(c *CallCtx, a []Value) []Outcome { return ret1(Implies(a[0].(*Term), a[1].(*Term))) })
 	reg(zz+"Assume", func(c *CallCtx, a []Value) []Outcome {
 		return []Outcome{{Cond: a[0].(*Term)}}
 	})
@@ -219,6 +222,7 @@ func init() {
 		return ret1(&BytesV{T: App("modaddr", a[0].(*Term)), NilT: TFalse})
 	})
 	reg(zz+"Blocked", func(c *CallCtx, a []Value) []Outcome {
+		c.S.W.noteEval("blocked", App("blocked", a[0].(*BytesV).T), a[0].(*BytesV).T)
 		return ret1(App("blocked", a[0].(*BytesV).T))
 	})
 	reg(zz+"StoreWrites", func(c *CallCtx, a []Value) []Outcome { return ret1(MkI(int64(c.S.W.Writes))) })
@@ -227,7 +231,9 @@ func init() {
 	reg(zz+"TblGet", func(c *CallCtx, a []Value) []Outcome {
 		tbl := constStr(a[0], "table")
 		declTable(tbl)
-		return ret1(newBig(c.S, c.S.W.tblGet(tbl, strOf(a[1]), strOf(a[2]))))
+		k1, k2 := strOf(a[1]), strOf(a[2])
+		c.S.W.noteEval("tbl|"+tbl, App("tbl0_"+tbl, k1, k2), k1, k2)
+		return ret1(newBig(c.S, c.S.W.tblGet(tbl, k1, k2)))
 	})
 	reg(zz+"TblSet", func(c *CallCtx, a []Value) []Outcome {
 		tbl := constStr(a[0], "table")
@@ -249,7 +255,10 @@ func strOf(v Value) *Term {
 }
 
 func declTable(tbl string) {
-	DeclareUF("tbl0_"+tbl, []Sort{SStr, SStr}, SInt, func(a *Term) []*Term { return []*Term{Le(MkI(0), a)} })
+	// A-BANK: initial balances are non-negative and below 2^128
+	DeclareUF("tbl0_"+tbl, []Sort{SStr, SStr}, SInt, func(a *Term) []*Term {
+		return []*Term{Le(MkI(0), a), Lt(a, MkInt(pow2(128)))}
+	})
 }
 
 func restoreWorld(st *State, snap *World) {
@@ -276,8 +285,26 @@ func restoreWorld(st *State, snap *World) {
 
 // ---------- obligations
 
+// noteEval records a model-relevant application (value and arguments) once.
+func (w *World) noteEval(kind string, app *Term, args ...*Term) {
+	tag := fmt.Sprintf("%s|%d", kind, app.ID)
+	for _, e := range w.Evals {
+		if e.Tag == tag {
+			return
+		}
+	}
+	w.Evals = append(w.Evals, NondetEntry{Tag: tag, T: app, Kind: "app"})
+	for i, a := range args {
+		w.Evals = append(w.Evals, NondetEntry{Tag: fmt.Sprintf("%s|arg%d", tag, i), T: a, Kind: "arg"})
+	}
+}
+
 func (e *Engine) withEvals(s *State, asserts []*Term) []*Term {
 	out := append([]*Term(nil), asserts...)
+	for i, en := range s.W.Evals {
+		ev := MkVar(fmt.Sprintf("evalx.%d", i), en.T.Sort)
+		out = append(out, Eq(ev, en.T))
+	}
 	for i, en := range s.W.Nondet {
 		if en.T.Op != "var" {
 			ev := MkVar(fmt.Sprintf("eval.%d.%s", i, sanitize(en.Tag)), en.T.Sort)
@@ -308,6 +335,11 @@ func (e *Engine) checkObligation(s *State, id string, cond *Term) {
 	e.mu.Lock()
 	e.Obs = append(e.Obs, r)
 	e.mu.Unlock()
+	if e.Cfg.Verbose && r.Verdict != "discharged" {
+		e.logfAlways("TRACE for %s:\n%s", id, strings.Join(s.Trace, "\n"))
+		sc, _ := Script(append(s.pcTerms(), Not(cond)))
+		e.logfAlways("QUERY for %s:\n%s", id, sc)
+	}
 	if e.Cfg.Verbose || r.Verdict != "discharged" {
 		e.logfAlways("  obligation %s on path %d: %s (%s)", id, s.ID, r.Verdict, r.Solver)
 	}
@@ -323,9 +355,9 @@ func (e *Engine) logfAlways(format string, a ...interface{}) {
 func (e *Engine) scenario(s *State, m Model, ob string) *Scenario {
 	sc := &Scenario{Harness: e.Harness, Ob: ob, Nondet: map[string]interface{}{}}
 	for i, en := range s.W.Nondet {
-		sym := smtSym(en.T.SV)
+		sym := en.T.SV
 		if en.T.Op != "var" {
-			sym = smtSym(fmt.Sprintf("eval.%d.%s", i, sanitize(en.Tag)))
+			sym = fmt.Sprintf("eval.%d.%s", i, sanitize(en.Tag))
 		}
 		raw, ok := m[sym]
 		if !ok {
@@ -337,6 +369,30 @@ func (e *Engine) scenario(s *State, m Model, ob string) *Scenario {
 		}
 		sc.Nondet[en.Tag] = smtToGo(raw, en.T.Sort)
 		sc.Order = append(sc.Order, en.Tag)
+	}
+	// table bases and predicates
+	var cur *BalRec
+	for i, en := range s.W.Evals {
+		raw, ok := m[fmt.Sprintf("evalx.%d", i)]
+		if !ok {
+			continue
+		}
+		parts := strings.Split(en.Tag, "|")
+		switch {
+		case parts[0] == "tbl" && en.Kind == "app":
+			sc.Bal = append(sc.Bal, BalRec{Table: parts[1], Amount: fmt.Sprint(smtToGo(raw, SInt))})
+			cur = &sc.Bal[len(sc.Bal)-1]
+		case parts[0] == "tbl" && strings.HasSuffix(en.Tag, "arg0") && cur != nil:
+			cur.K1Hex = fmt.Sprintf("%x", smtUnescape(raw))
+		case parts[0] == "tbl" && strings.HasSuffix(en.Tag, "arg1") && cur != nil:
+			cur.K2 = string(smtUnescape(raw))
+		case parts[0] == "blocked" && en.Kind == "app":
+			if raw == "true" && i+1 < len(s.W.Evals) {
+				if r2, ok := m[fmt.Sprintf("evalx.%d", i+1)]; ok {
+					sc.Blocked = append(sc.Blocked, fmt.Sprintf("%x", smtUnescape(r2)))
+				}
+			}
+		}
 	}
 	return sc
 }
